@@ -9,7 +9,8 @@
 (*                                                                             *)
 (* Histories are raft-legal: entries are appended without gaps, entries at or  *)
 (* below the commit index or a snapshot marker are never rewritten, terms and  *)
-(* commit never decrease, markers move forward.                                *)
+(* commit never decrease, markers move forward, a marker ahead of the commit   *)
+(* index is followed by the hard state that commits it.                        *)
 EXTENDS ZWal, TLC
 
 CONSTANTS MaxCalls, MaxIdx, MaxTerm, MaxCut, WithCrash,
@@ -56,9 +57,10 @@ SaveM(hs, ents, cut) ==
         /\ enti' = e1
         /\ segs' = (IF cut THEN Append(segs, [first |-> Len(r1) + 1, idx |-> e1 + 1]) ELSE segs)
         /\ handed' = (IF mustM \/ cut THEN Len(r2) ELSE handed)
-        /\ synced' = (IF cut /\ ~opt THEN Len(r2) ELSE IF fsM THEN Len(r1) ELSE synced)
+        /\ synced' = (IF cut /\ ~opt THEN Len(r2)
+                      ELSE IF fsM /\ Contiguous THEN Len(r1) ELSE synced)
         /\ pproc'  = (IF must THEN Len(r1) ELSE pproc)
-        /\ ppow'   = (IF fs THEN Len(r1) ELSE ppow)
+        /\ ppow'   = (IF fs /\ (~opt \/ Contiguous) THEN Len(r1) ELSE ppow)
   /\ UNCHANGED <<mode, opt, locks, img, snapq, res>>
 
 DoSave(hk, f, n, cut) ==
@@ -75,6 +77,9 @@ DoSave(hk, f, n, cut) ==
         /\ (hk \in {"term", "term0"} => last.t + 1 <= MaxTerm)
         /\ (hk = "vote" => last.t >= 1 /\ last.v = 0)
         /\ (hk = "commit" => newLast > last.c)
+        \* a snapshot received from the leader (marker ahead of the commit index) is followed
+        \* by the hard state that commits it, as raft hands both out in one Ready
+        /\ (MaxMarker(recs) > last.c => hk = "commit")
         /\ SaveM(hs, ents, cut)
   /\ ncall' = ncall + 1
   /\ ncut' = (IF cut THEN ncut + 1 ELSE ncut)
